@@ -16,9 +16,9 @@ import (
 
 	"gitlab.com/aquachain/aquachain/aquadb"
 	"gitlab.com/aquachain/aquachain/common"
+	"gitlab.com/aquachain/aquachain/core"
 	"gitlab.com/aquachain/aquachain/core/state"
 	"gitlab.com/aquachain/aquachain/core/vm"
-	"gitlab.com/aquachain/aquachain/core/vm/runtime"
 	"gitlab.com/aquachain/aquachain/crypto"
 	"gitlab.com/aquachain/aquachain/params"
 	"gitlab.com/aquachain/aquachain/verifharness/vh"
@@ -93,6 +93,11 @@ var contractAddr = common.StringToAddress("contract")
 
 type world struct{ st *state.StateDB }
 
+// the block hash the test environment serves for block n (non-zero, depends on n)
+func blockHashOf(n uint64) common.Hash {
+	return common.BytesToHash(crypto.Keccak256([]byte(fmt.Sprint(n))))
+}
+
 func newWorld() *world {
 	st, err := state.New(common.Hash{}, state.NewDatabase(aquadb.NewMemDatabase()))
 	if err != nil {
@@ -112,9 +117,10 @@ type runres struct {
 // run executes code at the given mainnet height with the given gas.
 func (w *world) run(cfg *params.ChainConfig, block int64, code, input []byte, gas uint64) (r runres) {
 	w.st.SetCode(contractAddr, code)
-	rc := &runtime.Config{ChainConfig: cfg, Difficulty: big.NewInt(1), BlockNumber: big.NewInt(block), Time: big.NewInt(1000),
-		GasLimit: gas, GasPrice: big.NewInt(1), Value: new(big.Int), State: w.st}
-	env := runtime.NewEnv(rc)
+	ctx := vm.Context{CanTransfer: core.CanTransfer, Transfer: core.Transfer, GetHash: blockHashOf,
+		Origin: common.Address{}, Coinbase: common.Address{}, BlockNumber: big.NewInt(block), Time: big.NewInt(1000),
+		Difficulty: big.NewInt(1), GasLimit: gas, GasPrice: big.NewInt(1)}
+	env := vm.NewEVM(ctx, w.st, cfg, vm.Config{})
 	p, pv := vh.CatchPanic(func() {
 		ret, left, err := env.Call(vm.AccountRef(common.Address{}), contractAddr, input, gas, new(big.Int))
 		r.ret, r.used = ret, gas-left
@@ -289,6 +295,23 @@ func genOpCases(c *vh.Ctx) []opcase {
 				for _, v := range vals {
 					cases = append(cases, opcase{o, []*big.Int{big.NewInt(sh), v}, "shift"})
 				}
+			}
+		}
+		// narrowing lattice on the operand the Go code narrows (index / shift / width / exponent)
+		switch o.name {
+		case "BYTE", "SIGNEXTEND", "SHL", "SHR", "SAR":
+			vals := []*big.Int{sub(pow2(256), 1), pow2(255), new(big.Int).SetBytes(c.Rng.Bytes(32))}
+			for _, h := range highBits([]int64{0, 1, 3, 30, 31, 32, 255}, nil) {
+				for _, v := range vals {
+					cases = append(cases, opcase{o, []*big.Int{h, v}, "highbits"})
+				}
+			}
+		case "EXP":
+			for _, h := range highBits([]int64{0, 1, 3}, []*big.Int{big.NewInt(1), big.NewInt(2)}) {
+				cases = append(cases, opcase{o, []*big.Int{big.NewInt(3), h}, "highbits"}, opcase{o, []*big.Int{add(pow2(128), 1), h}, "highbits"})
+			}
+			for _, h := range highBits([]int64{0, 1}, []*big.Int{pow2(63), pow2(191)}) {
+				cases = append(cases, opcase{o, []*big.Int{big.NewInt(2), h}, "highbits"}, opcase{o, []*big.Int{sub(pow2(256), 1), h}, "highbits"})
 			}
 		}
 		n := c.Scale(60, 3000)
@@ -534,6 +557,11 @@ func checkMemoryPrograms(c *vh.Ctx, m *vh.Model, w *world) {
 	offs := []*big.Int{big.NewInt(0), big.NewInt(1), big.NewInt(31), big.NewInt(32), big.NewInt(33), big.NewInt(1000), big.NewInt(65536), big.NewInt(3000000),
 		pow2(32), sub(pow2(64), 32), sub(pow2(64), 1), pow2(64), sub(pow2(256), 1)}
 	lens := []*big.Int{big.NewInt(0), big.NewInt(1), big.NewInt(32), big.NewInt(33), big.NewInt(100000), pow2(32), sub(pow2(64), 1), pow2(64), sub(pow2(256), 1)}
+	// narrowing lattice: bits above 64 / 32 over a small remainder must be overflow / out-of-gas, never a wrap
+	for _, h := range highBits([]int64{0, 1}, []*big.Int{big.NewInt(1), pow2(191)}) {
+		offs = append(offs, h)
+	}
+	lens = append(lens, add(pow2(64), 1), add(pow2(64), 32), add(pow2(255), 32), add(pow2(32), 1))
 	for _, mo := range memops {
 		ls := lens
 		if mo.fixed > 0 {
@@ -760,6 +788,11 @@ func checkFrames(c *vh.Ctx, m *vh.Model) {
 			return sub(pow2(256), 1)
 		case 3:
 			return big.NewInt(int64(n + r.Intn(40) - 35))
+		case 4: // bits above 64 (or 32) over a small in-range remainder
+			k := []*big.Int{big.NewInt(1), big.NewInt(2), pow2(63), pow2(191)}[r.Intn(4)]
+			base := []*big.Int{pow2(64), pow2(32)}[r.Intn(2)]
+			v := new(big.Int).Mul(k, base)
+			return v.Add(v, big.NewInt(int64(r.Intn(n+2))))
 		default:
 			if n <= 0 {
 				return big.NewInt(0)
@@ -1239,6 +1272,328 @@ func checkRules(c *vh.Ctx, m *vh.Model, w *world) {
 	}
 }
 
+// ---------------------------------------------------------------- narrowing lattice through the interpreter
+
+// highBits: k*2^64 + r and k*2^32 + r for k in ks (default {1, 2, 2^63, 2^191}) and the remainders rs
+func highBits(rs []int64, ks []*big.Int) []*big.Int {
+	if ks == nil {
+		ks = []*big.Int{big.NewInt(1), big.NewInt(2), pow2(63), pow2(191)}
+	}
+	var out []*big.Int
+	seen := map[string]bool{}
+	for _, base := range []*big.Int{pow2(64), pow2(32)} {
+		for _, k := range ks {
+			for _, r := range rs {
+				if r < 0 {
+					continue
+				}
+				v := new(big.Int).Mul(k, base)
+				v.Add(v, big.NewInt(r))
+				if v.Cmp(tt256) < 0 && !seen[v.String()] {
+					seen[v.String()] = true
+					out = append(out, v)
+				}
+			}
+		}
+	}
+	return out
+}
+
+// remainders relative to a buffer length
+func around(n int) []int64 { return []int64{0, 1, 3, int64(n - 1), int64(n), int64(n + 1)} }
+
+var ret32 = []byte{0x60, 0x00, 0x52, 0x60, 0x20, 0x60, 0x00, 0xf3} // PUSH1 0 MSTORE PUSH1 32 PUSH1 0 RETURN
+var retMem32 = []byte{0x60, 0x20, 0x60, 0x00, 0xf3}                // PUSH1 32 PUSH1 0 RETURN
+
+func nonzeroBytes(r *vh.RNG, n int) []byte {
+	b := r.Bytes(n)
+	for i := range b {
+		if b[i] == 0 {
+			b[i] = byte(1 + i%250)
+		}
+	}
+	return b
+}
+
+func obsRun(r runres, gas uint64) string {
+	switch {
+	case r.errs == "":
+		return "ok " + vh.Hex(r.ret)
+	case strings.HasPrefix(r.errs, "panic"):
+		return r.errs
+	case r.used == gas:
+		return "consumes-all"
+	}
+	return fmt.Sprintf("%s used=%d", r.errs, r.used)
+}
+
+func first32(memHex string) string { // "0x.." of a memory image -> its first 32 bytes
+	b := vh.UnHex(memHex)
+	if len(b) < 32 {
+		b = append(b, make([]byte, 32-len(b))...)
+	}
+	return vh.Hex(b[:32])
+}
+
+func wordHex(v string) string { // quantity "0x1f" -> 32-byte hex
+	x, _ := new(big.Int).SetString(strings.TrimPrefix(v, "0x"), 16)
+	return vh.Hex(common.LeftPadBytes(x.Bytes(), 32))
+}
+
+func checkHighBits(c *vh.Ctx, m *vh.Model, w *world) {
+	r := c.Rng
+	input := nonzeroBytes(r, 40)
+	extAddr := common.StringToAddress("extcode")
+	extCode := nonzeroBytes(r, 40)
+	extCode[0] = 0xfe
+	w.st.CreateAccount(extAddr)
+	w.st.SetCode(extAddr, extCode)
+	// B returns 40 non-zero bytes
+	rd := nonzeroBytes(r, 64)
+	addrB := common.StringToAddress("returns40")
+	codeB := append(append(push32(nil, new(big.Int).SetBytes(rd[:32])), 0x60, 0x00, 0x52), append(push32(nil, new(big.Int).SetBytes(rd[32:])), 0x60, 0x20, 0x52, 0x60, 0x28, 0x60, 0x00, 0xf3)...)
+	w.st.CreateAccount(addrB)
+	w.st.SetCode(addrB, codeB)
+	rd = rd[:40]
+	// G returns the gas it sees
+	addrG := common.StringToAddress("reportsgas")
+	w.st.CreateAccount(addrG)
+	w.st.SetCode(addrG, append([]byte{0x5a}, ret32...))
+	gasLimit := uint64(progGas)
+	report := func(kind, cas string, code []byte, obs, model, spec string) {
+		c.Eval("highbits/"+kind, cas)
+		ok := c.Correspond("interpreter "+kind+" (narrowing lattice)~model", cas, obs, model)
+		if spec != "" && obs != spec {
+			c.Violate("highbits/"+kind+"/"+cas, fmt.Sprintf("%s %s gives %s, the specification defines %s", kind, cas, clipS(obs), clipS(spec)),
+				map[string]interface{}{"kind": "highbits", "op": kind, "case": cas, "program": vh.Hex(code), "input": vh.Hex(input), "block": blockSpring,
+					"observed": obs, "expected": spec})
+		} else if !ok && spec == "" {
+			c.Violate("highbits/"+kind+"/"+cas, fmt.Sprintf("%s %s gives %s, the model of the Go code %s", kind, cas, clipS(obs), clipS(model)),
+				map[string]interface{}{"kind": "highbits", "op": kind, "case": cas, "program": vh.Hex(code), "input": vh.Hex(input), "block": blockSpring,
+					"observed": obs, "expected": model})
+		}
+	}
+	// gas the model charges for a memory-touching step on an empty memory, or nil if it fails
+	stepGas := func(gasfn string, off, l, x *big.Int) (*big.Int, string) {
+		ms := m.Ask(fmt.Sprintf("memsize %s %s", hx(off), hx(l)))
+		if !strings.HasPrefix(ms, "ok ") {
+			return nil, ""
+		}
+		msv := strings.Fields(ms)[1]
+		ans := m.Ask(fmt.Sprintf("gasfn %s hf1 0 0 %s %s", gasfn, msv, hx(x)))
+		if !strings.HasPrefix(ans, "ok ") {
+			return nil, ""
+		}
+		g, _ := new(big.Int).SetString(strings.TrimPrefix(strings.Fields(ans)[1], "0x"), 16)
+		return g, msv
+	}
+	zeros := func(n string) string {
+		k, _ := new(big.Int).SetString(strings.TrimPrefix(n, "0x"), 16)
+		return vh.Hex(make([]byte, k.Int64()))
+	}
+
+	// (a) CALLDATALOAD
+	for _, off := range append(highBits(around(len(input)), nil), big.NewInt(0), big.NewInt(int64(len(input)-1)), big.NewInt(39), big.NewInt(40)) {
+		code := append(append(push32(nil, off), 0x35), ret32...)
+		rr := w.run(params.MainnetChainConfig, blockSpring, code, input, gasLimit)
+		mv, sv := splitS(m.Ask("cdload " + vh.Hex(input) + " " + hx(off)))
+		report("CALLDATALOAD", hx(off), code, obsRun(rr, gasLimit), "ok "+wordHex(mv), "ok "+wordHex(sv))
+	}
+	// (b,c,d) CALLDATACOPY / CODECOPY / EXTCODECOPY
+	type cp struct {
+		name  string
+		op    byte
+		gasfn string
+	}
+	for _, k := range []cp{{"CALLDATACOPY", 0x37, "gasCallDataCopy"}, {"CODECOPY", 0x39, "gasCodeCopy"}, {"EXTCODECOPY", 0x3c, "gasExtCodeCopy"}} {
+		type tri struct{ mo, do, l *big.Int }
+		var cases []tri
+		for _, h := range append(highBits(around(40), nil), big.NewInt(0), big.NewInt(8), big.NewInt(39), big.NewInt(40)) {
+			cases = append(cases, tri{big.NewInt(0), h, big.NewInt(32)})
+		}
+		for _, h := range highBits([]int64{0, 1, 31, 32, 33}, []*big.Int{big.NewInt(1), pow2(191)}) {
+			cases = append(cases, tri{h, big.NewInt(0), big.NewInt(32)}, tri{big.NewInt(0), big.NewInt(0), h})
+		}
+		for _, t := range cases {
+			code := push32(push32(push32(nil, t.l), t.do), t.mo)
+			if k.op == 0x3c {
+				code = append(append(code, 0x73), extAddr.Bytes()...)
+			}
+			code = append(append(code, k.op), retMem32...)
+			data := input
+			if k.op == 0x39 {
+				data = code
+			} else if k.op == 0x3c {
+				data = extCode
+			}
+			rr := w.run(params.MainnetChainConfig, blockSpring, code, input, gasLimit)
+			cas := fmt.Sprintf("memOff=%s dataOff=%s len=%s", hx(t.mo), hx(t.do), hx(t.l))
+			want, spec := "consumes-all", "consumes-all"
+			if g, msv := stepGas(k.gasfn, t.mo, t.l, t.l); g != nil && g.Cmp(big.NewInt(progGas-1000)) < 0 {
+				mv, sv := splitS(m.Ask(fmt.Sprintf("datacopy %s %s %s %s %s", zeros(msv), vh.Hex(data), hx(t.mo), hx(t.do), hx(t.l))))
+				want, spec = "?"+mv, ""
+				if strings.HasPrefix(mv, "ok ") {
+					want = "ok " + first32(strings.Fields(mv)[1])
+				}
+				if strings.HasPrefix(sv, "0x") {
+					spec = "ok " + first32(sv)
+				}
+			}
+			report(k.name, cas, code, obsRun(rr, gasLimit), want, spec)
+		}
+	}
+	// (e) RETURNDATACOPY after a call that returned 40 bytes
+	{
+		type duo struct{ do, l *big.Int }
+		var cases []duo
+		for _, h := range append(highBits(around(40), nil), big.NewInt(0), big.NewInt(32), big.NewInt(33)) {
+			cases = append(cases, duo{h, big.NewInt(8)})
+		}
+		for _, h := range highBits([]int64{0, 1, 8}, []*big.Int{big.NewInt(1), pow2(191)}) {
+			cases = append(cases, duo{big.NewInt(0), h})
+		}
+		for _, t := range cases {
+			code := []byte{0x60, 0x00, 0x60, 0x00, 0x60, 0x00, 0x60, 0x00, 0x60, 0x00, 0x73}
+			code = append(code, addrB.Bytes()...)
+			code = append(code, 0x62, 0x01, 0x86, 0xa0, 0xf1, 0x50)
+			code = append(push32(push32(code, t.l), t.do), 0x60, 0x00, 0x3e)
+			code = append(code, retMem32...)
+			rr := w.run(params.MainnetChainConfig, blockSpring, code, nil, gasLimit)
+			cas := fmt.Sprintf("dataOff=%s len=%s", hx(t.do), hx(t.l))
+			want := "consumes-all"
+			if g, msv := stepGas("gasReturnDataCopy", big.NewInt(0), t.l, t.l); g != nil && g.Cmp(big.NewInt(progGas-100000)) < 0 {
+				mv := m.Ask(fmt.Sprintf("rdcopy %s %s 0x0 %s %s", zeros(msv), vh.Hex(rd), hx(t.do), hx(t.l)))
+				if strings.HasPrefix(mv, "ok ") {
+					want = "ok " + first32(strings.Fields(mv)[1])
+				}
+			}
+			// specification: out of bounds iff offset + length exceeds the 40 bytes returned
+			spec := "consumes-all"
+			if end := new(big.Int).Add(t.do, t.l); end.Cmp(big.NewInt(40)) <= 0 {
+				img := make([]byte, 32)
+				copy(img, rd[t.do.Int64():end.Int64()])
+				spec = "ok " + vh.Hex(img)
+			}
+			report("RETURNDATACOPY", cas, code, obsRun(rr, gasLimit), want, spec)
+		}
+	}
+	// (f) JUMP / JUMPI: dest = high bits + a valid JUMPDEST position must be refused
+	for _, jumpi := range []bool{false, true} {
+		pos := int64(35)
+		if jumpi {
+			pos = 68
+		}
+		for _, d := range append(highBits([]int64{0, 1, pos - 1, pos, pos + 1}, nil), big.NewInt(pos), big.NewInt(pos-1)) {
+			var code []byte
+			if jumpi {
+				code = append(push32(push32(nil, big.NewInt(1)), d), 0x57, 0xfe, 0x5b)
+			} else {
+				code = append(push32(nil, d), 0x56, 0xfe, 0x5b)
+			}
+			code = append(append(code, 0x60, 0x01), ret32...)
+			rr := w.run(params.MainnetChainConfig, blockSpring, code, nil, gasLimit)
+			var mv string
+			if jumpi {
+				mv = m.Ask(fmt.Sprintf("jumpi %s 66 %s 1", vh.Hex(code), hx(d)))
+			} else {
+				mv = m.Ask(fmt.Sprintf("jump %s %s", vh.Hex(code), hx(d)))
+			}
+			want := "consumes-all"
+			if strings.HasPrefix(mv, "ok ") {
+				want = "ok " + wordHex("0x1")
+			}
+			spec := "consumes-all"
+			if refJumpdest(code, d) {
+				spec = "ok " + wordHex("0x1")
+			}
+			name := "JUMP"
+			if jumpi {
+				name = "JUMPI"
+			}
+			report(name, hx(d), code, obsRun(rr, gasLimit), want, spec)
+		}
+	}
+	// (i) BLOCKHASH
+	for _, num := range append(highBits([]int64{0, 1, 3, blockSpring - 256, blockSpring - 2, blockSpring - 1, blockSpring}, nil),
+		big.NewInt(blockSpring-1), big.NewInt(blockSpring-256), big.NewInt(blockSpring-257), big.NewInt(blockSpring), big.NewInt(0)) {
+		code := append(append(push32(nil, num), 0x40), ret32...)
+		rr := w.run(params.MainnetChainConfig, blockSpring, code, nil, gasLimit)
+		render := func(a string) string {
+			if f := strings.Fields(a); len(f) == 2 && f[0] == "hash" {
+				n, _ := new(big.Int).SetString(strings.TrimPrefix(f[1], "0x"), 16)
+				return "ok " + vh.Hex(blockHashOf(n.Uint64()).Bytes())
+			}
+			return "ok " + wordHex("0x0")
+		}
+		mv, sv := splitS(m.Ask(fmt.Sprintf("blockhash %d %s", blockSpring, hx(num))))
+		report("BLOCKHASH", hx(num), code, obsRun(rr, gasLimit), render(mv), render(sv))
+	}
+	// (j) CALL: gas operand and in/out ranges; CREATE ranges
+	avail := uint64(progGas - 21)
+	for _, g := range append(highBits([]int64{0, 1, 3, 50000}, nil), big.NewInt(50000), big.NewInt(0), sub(pow2(64), 1)) {
+		code := []byte{0x60, 0x20, 0x60, 0x00, 0x60, 0x00, 0x60, 0x00, 0x60, 0x00, 0x73}
+		code = append(code, addrG.Bytes()...)
+		code = append(append(push32(code, g), 0xf1, 0x50), retMem32...)
+		rr := w.run(params.MainnetChainConfig, blockSpring, code, nil, gasLimit)
+		mv, sv := splitS(m.Ask(fmt.Sprintf("gascall call hf1 true 0x0 false true 0 0 0x20 %d %s", avail, hx(g))))
+		rend := func(temp string) string { // the callee reports the gas passed on minus the 2 of its GAS instruction
+			t, _ := new(big.Int).SetString(strings.TrimPrefix(temp, "0x"), 16)
+			if t.Cmp(big.NewInt(2)) < 0 {
+				return "ok " + wordHex("0x0") // callee runs out of gas at once: nothing written to the return area
+			}
+			return "ok " + vh.Hex(common.LeftPadBytes(t.Sub(t, big.NewInt(2)).Bytes(), 32))
+		}
+		want := "consumes-all"
+		if f := strings.Fields(mv); len(f) == 4 && f[0] == "ok" {
+			want = rend(f[2])
+		}
+		report("CALL-gas", hx(g), code, obsRun(rr, gasLimit), want, rend(strings.Fields(sv)[1]))
+	}
+	for pos := 0; pos < 4; pos++ { // inOff, inSize, retOff, retSize
+		for _, h := range highBits([]int64{0, 1, 32}, []*big.Int{big.NewInt(1), pow2(191)}) {
+			ops4 := []*big.Int{big.NewInt(0), big.NewInt(1), big.NewInt(0), big.NewInt(1)}
+			ops4[pos] = h
+			code := push32(push32(push32(push32(nil, ops4[3]), ops4[2]), ops4[1]), ops4[0]) // retSize retOff inSize inOff
+			code = append(append(code, 0x60, 0x00, 0x73), addrG.Bytes()...)
+			code = append(code, 0x61, 0xc3, 0x50, 0xf1, 0x00)
+			rr := w.run(params.MainnetChainConfig, blockSpring, code, nil, gasLimit)
+			cas := fmt.Sprintf("in=(%s,%s) ret=(%s,%s)", hx(ops4[0]), hx(ops4[1]), hx(ops4[2]), hx(ops4[3]))
+			want := "consumes-all"
+			if ms := m.Ask(fmt.Sprintf("memcall %s %s %s %s", hx(ops4[0]), hx(ops4[1]), hx(ops4[2]), hx(ops4[3]))); strings.HasPrefix(ms, "ok ") {
+				mv, _ := splitS(m.Ask(fmt.Sprintf("gascall call hf1 true 0x0 false true 0 0 %s %d 0xc350", strings.Fields(ms)[1], progGas-3*7)))
+				if f := strings.Fields(mv); len(f) == 4 && f[0] == "ok" {
+					if t, _ := new(big.Int).SetString(strings.TrimPrefix(f[1], "0x"), 16); t.Cmp(big.NewInt(progGas-21)) <= 0 {
+						want = "ok 0x"
+					}
+				}
+			}
+			// specification: such a range needs more memory than any gas can pay
+			report("CALL-range", cas, code, obsRun(rr, gasLimit), want, "consumes-all")
+		}
+	}
+	for pos := 0; pos < 2; pos++ { // CREATE offset, size
+		for _, h := range highBits([]int64{0, 1, 32}, []*big.Int{big.NewInt(1), pow2(191)}) {
+			ops2 := []*big.Int{big.NewInt(0), big.NewInt(1)}
+			ops2[pos] = h
+			code := append(push32(push32(nil, ops2[1]), ops2[0]), 0x60, 0x00, 0xf0, 0x00)
+			rr := w.run(params.MainnetChainConfig, blockSpring, code, nil, gasLimit)
+			cas := fmt.Sprintf("offset=%s size=%s", hx(ops2[0]), hx(ops2[1]))
+			want := "consumes-all"
+			if g, _ := stepGas("gasCreate", ops2[0], ops2[1], ops2[1]); g != nil && g.Cmp(big.NewInt(progGas-9)) <= 0 {
+				want = "ok 0x"
+			}
+			report("CREATE-range", cas, code, obsRun(rr, gasLimit), want, "consumes-all")
+		}
+	}
+}
+
+func clipS(s string) string {
+	if len(s) > 140 {
+		return s[:140] + ".."
+	}
+	return s
+}
+
 // ---------------------------------------------------------------- fork -> table selection on random fork maps
 
 func checkSelection(c *vh.Ctx, m *vh.Model) {
@@ -1308,6 +1663,8 @@ func replay(c *vh.Ctx, m *vh.Model, w *world) {
 		checkSha3Env(c, m)
 	case "stategas":
 		checkStateGas(c, m)
+	case "highbits":
+		checkHighBits(c, m, w)
 	default:
 		checkValidity(c, m, w)
 	}
@@ -1355,6 +1712,7 @@ func main() {
 	checkMemoryTwice(c, m, w)
 	checkJumpdests(c, m, w)
 	checkFrames(c, m)
+	checkHighBits(c, m, w)
 	checkSha3Env(c, m)
 	checkStateGas(c, m)
 	checkRules(c, m, w)
